@@ -298,6 +298,12 @@ def gen_forall(rng, allow_empty=False, falsy_lit=False):
     if allow_empty:
         vars_[0]["dom"] = []
     inner = ["cmp", rng.choice(CMP), ["attr", ["var", "x"], rng.choice("ab")], ["attr", ["var", "y"], rng.choice("ab")]]
+    rp = rng.random()
+    if rp < 0.12:
+        # a predicate / symbolic function over both variables as the quantified condition
+        inner = ["pred", "BothPositive", [["var", "x"], ["var", "y"]]]
+    elif rp < 0.24:
+        inner = ["cmp", rng.choice(CMP), ["fn", "sum_ab", {"x": ["var", "x"], "y": ["var", "y"]}], ["lit", rng.randint(1, 4)]]
     r = rng.random()
     if r < 0.25:
         inner = ["or", inner, ["cmp", rng.choice(CMP), ["attr", ["var", "x"], "b"], ["attr", ["var", "y"], "a"]]]
